@@ -280,6 +280,41 @@ def install(E):
     def _interfere(E, st, fr, a, d):
         st.env = dict(st.env); st.env['interfere'] = int(a[0]); return 0
 
+    # ------------------------------------------------------------ lazy-initialisation races (C07): store log of an initialiser
+    @reg('symx_store_log_begin')
+    def _slb(E, st, fr, a, d):
+        """start recording every store to a GLOBAL object (the stores of a lazy initialiser, in program order) and remember
+        the globals' current contents"""
+        E.logging = True
+        st.env = dict(st.env); st.env['store_log'] = ()
+        st.env['glob_snapshot'] = {oid: o.data[:] for oid, o in st.mem.items() if o.kind == 'global' and o.arr is None}
+        return 0
+    @reg('symx_store_log_end')
+    def _sle(E, st, fr, a, d):
+        log = st.env.get('store_log') or ()
+        st.env = dict(st.env); st.env['store_log_done'] = log; st.env['store_log'] = None
+        return len(log)
+    @reg('symx_store_prefix')
+    def _spf(E, st, fr, a, d):
+        """reset the globals to the snapshot and apply the first k recorded stores: the state another thread has produced when it
+        is k stores into the initialiser (x86-TSO: stores become visible in program order)"""
+        k = conc(E, st, a[0], 'store prefix', 4096)
+        snap = st.env['glob_snapshot']; log = st.env['store_log_done']
+        for oid, data in snap.items():
+            o = st.wobj(oid); o.data[:] = data
+        for (oid, off, val, n) in log[:k]:
+            E.store(st, Ptr(oid, off), val, n)
+        # for the native replay: the same state expressed as (global symbol, bytes) resets and pokes
+        def cells_hex(cells):
+            return ''.join('%02x' % (c if type(c) is int else 0) for c in cells)
+        touched = sorted({oid for (oid, off, val, n) in log})
+        poke = {'reset': [(st.mem[oid].name, cells_hex(snap[oid])) for oid in touched if oid in snap],
+                'stores': [(st.mem[oid].name, off, cells_hex([(val >> (8 * i)) & 0xFF for i in range(n)]) if type(val) is int else
+                            (('fn:' + E.fnobj[val.obj]) if (val.__class__ is Ptr and val.obj in E.fnobj and val.off == 0) else ('00' * n if (val.__class__ is Ptr and val.obj == 0) else None)))
+                           for (oid, off, val, n) in log[:k]]}
+        st.env = dict(st.env); st.env['poke'] = poke
+        return 0
+
     # ------------------------------------------------------------ stdio over the model file system
     def fstate(st, fp, what):
         o = st.mem.get(fp.obj)
